@@ -1046,8 +1046,18 @@ def run_one(ctx, c, root, case):
         p.communicate()
         ctx.inconclusive.append(f"_molli_run did not end within {RUN_TIMEOUT}s for case {case}")
         return None
-    judge(ctx, c, L, p.returncode, se.decode(errors="replace"), case)
+    err = se.decode(errors="replace")
+    if never_started(err):
+        ctx.inconclusive.append(f"_molli_run died before reaching run_local for case {case}: {err[-300:]}")
+        return None
+    judge(ctx, c, L, p.returncode, err, case)
     return L
+
+
+def never_started(stderr):
+    """the interpreter died with a traceback that does not pass through the entry point run_local (e.g. molli could not be
+    imported because the working tree was being edited): nothing about the property was observed"""
+    return "Traceback (most recent call last)" in stderr and "run_local" not in stderr
 
 
 def run_exec_chunk(spec, ctx):
@@ -1124,6 +1134,10 @@ def run_pair_chunk(spec, ctx):
                 res.append(None)
         if None in res:
             ctx.inconclusive.append(f"_molli_run pair {pi} did not end within {RUN_TIMEOUT}s")
+            shutil.rmtree(root, ignore_errors=True)
+            continue
+        if any(never_started(r[1]) for r in res):
+            ctx.inconclusive.append(f"_molli_run died before reaching run_local in pair {pi}")
             shutil.rmtree(root, ignore_errors=True)
             continue
         met = all((L["logdir"] / "met").exists() and (L["logdir"] / "met2").exists() for L in Ls)
